@@ -935,7 +935,8 @@ theorem functionDef_recorded (i : Nat) (name : String) (ai : Nat) (po ar va ko k
       (ai, AnnoKey.scope, ca) ∈ rest ∧
       Popped cI true ((({ bound := paramNames po ar va ko kw } : Eff).exported false) ++
                       ((effSs (.fn i name :: fns) body).exported false)) ∧
-      (∀ q, q ∈ ca.paramNames ↔ q ∈ paramNames po ar va ko kw) := by
+      (∀ q, q ∈ ca.paramNames ↔ q ∈ paramNames po ar va ko kw) ∧
+      (∃ sb, PlainS sb (.fn i name :: fns) ∧ ∀ x, x ∈ (visitSs body sb).annos → x ∈ rest) := by
   simp only [FragS, Bool.and_eq_true, Bool.not_eq_true'] at hf
   obtain ⟨⟨⟨⟨_, ⟨⟨⟨⟨⟨⟨hpo, har⟩, hva⟩, hko⟩, hkw⟩, hkd⟩, hdf⟩⟩, hdec⟩, hret⟩, hbody⟩ := hf
   have hpp : PlainParams po ar va ko kw := ⟨hpo, har, hva, hko, hkw⟩
@@ -971,18 +972,24 @@ theorem functionDef_recorded (i : Nat) (name : String) (ai : Nat) (po ar va ko k
   obtain ⟨cb, -, hxb, -⟩ := SBb.popped
   obtain ⟨cI, hcI, hxI, -⟩ := SBc.popped
   obtain ⟨nb, eb⟩ := B2.ext
-  refine ⟨cI, ca, _, by rw [hxI]; rfl, ?_, hcI, ?_⟩
-  · rw [hxb]
+  refine ⟨cI, ca, ?rest, ?hd, ?mem, hcI, ?par, ⟨_, qB.enter false (some name), ?sub⟩⟩
+  case hd => rw [hxI]; rfl
+  case sub =>
+    intro x hx
+    rw [hxb]
+    simp only [List.append_eq, List.nil_append, List.mem_append]
+    exact Or.inr hx
+  case mem =>
+    rw [hxb]
     apply List.mem_append_right
     rw [eb]
     apply List.mem_append_right
     rw [St.enter_annos, hxa]
     simp
-  · intro x
+  case par =>
+    intro x
     rw [← hca, visitParams_params hpp hfresh x]
-    have : ((s0.enter false).exitWith [(i, .scope)] |>.enter true (some name) |>.enter false (some name)).top.paramNames = [] := rfl
     simp [Scope.paramNames, St.top, St.enter]
-
 
 /-! ### what the specification says about the top-level function -/
 
@@ -1065,5 +1072,6 @@ theorem analyzeBlock_head (id : Nat) (kind : BlockKind) (name : String)
     · rintro ⟨hg, hnw⟩
       refine Or.inl ⟨_, ⟨⟨x, by rcases hnw with h | h <;> simp [h], rfl⟩, ?_⟩, rfl⟩
       rcases hnw with h | h <;> by_cases h2 : x ∈ walrus <;> by_cases h3 : x ∈ nonlocals <;> simp_all
+
 
 end Malt.Analysis
